@@ -90,6 +90,11 @@ def run(ctx):
         if oke:
             x = M.strip(some[0][2][0])
             oke = x[0] == "call" and x[1] == "posix::CVec::new" and M.strip(x[2][0]) == ("param", 3, pe.local_name(3))
+        if not oke:
+            # env.map(CVec::new).transpose()? — the same value: Some(CVec::new(env)?) for Some(env), None for None
+            x = M.strip(a[2])
+            oke = x[0] == "call" and x[1].endswith("::transpose") and x[2][0][0] == "call" and x[2][0][1] == "std::option::Option::<T>::map" \
+                and M.noref(x[2][0][2][0]) == ("param", 3, pe.local_name(3)) and x[2][0][2][1] == ("fnitem", "posix::CVec::new")
         ctx.ob("R06.1", "prep_exec.envvec", oke, pe.loc(nc[0][0]), "PrepExec envvec = %s (must be Some(CVec::new(env)?) / None mirroring the env option)" % M.term_str(a[2]))
     else:
         ctx.ob("R06.1", "prep_exec.shape", False, pe.loc(0), "expected one PrepExec::new call")
